@@ -435,6 +435,7 @@ fn lengths_for(mode: Mode, thorough: bool) -> Vec<usize> {
 }
 
 pub fn run(cfg: &Config) -> Report {
+    crate::c19::REPORT_ODD_SIZE.store(false, std::sync::atomic::Ordering::Relaxed);
     let mode = mode_of(cfg);
     // shard selection: shard=i/n keeps the cases with index % n == i
     let (si, sn) = match cfg.extra_value("shard") {
@@ -534,6 +535,14 @@ pub fn run(cfg: &Config) -> Report {
                             let mut dst = vec![lightmotif::abc::Nucleotide::N; l].into_boxed_slice();
                             let _ = Pipeline::<Dna, _>::avx2().unwrap().encode_into(&text[..], &mut dst[..]);
                             let _ = Pipeline::<Dna, _>::sse2().unwrap().encode_into(&text[..], &mut dst[..]);
+                            // records encoded back to back into one buffer: the destination starts
+                            // anywhere (an aligned store there faults)
+                            let mut wide = vec![lightmotif::abc::Nucleotide::N; l + 40].into_boxed_slice();
+                            for off in [1usize, 5, 17] {
+                                let _ = Pipeline::<Dna, _>::sse2().unwrap().encode_into(&text[..], &mut wide[off..off + l]);
+                                let _ = Pipeline::<Dna, _>::avx2().unwrap().encode_into(&text[..], &mut wide[off..off + l]);
+                                let _ = Pipeline::<Dna, _>::generic().encode_into(&text[..], &mut wide[off..off + l]);
+                            }
                         }
                         for arm in [Arm::DispGeneric, Arm::DispSse2, Arm::DispAvx2] {
                             if mode == Mode::Miri && arm != Arm::DispGeneric {
